@@ -252,7 +252,10 @@ func (listForSender *txListForSender) selectBatchTo(isFirstBatch bool, destinati
 		value := element.Value.(*WrappedTransaction)
 		txNonce := value.Tx.GetNonce()
 
-		if previousNonce > 0 && txNonce > previousNonce+1 {
+		// The first transaction of the list has no predecessor to compare with (an initial gap is detected separately, against the account nonce).
+		// Note: "previousNonce > 0" cannot be used to tell whether there is a predecessor, since 0 is a valid nonce.
+		isFirstTx := element == listForSender.items.Front()
+		if !isFirstTx && txNonce > previousNonce+1 {
 			listForSender.copyDetectedGap = true
 			journal.hasMiddleGap = true
 			break
